@@ -166,3 +166,35 @@ func VH_C10_C12_ItemStream() {
 		vh.Assert(string(bs) == string(rest[u2:u2+int(a2)]) && len(in)-remaining() == u1+u2+int(a2), "second item value and consumption")
 	}
 }
+
+// VH_C10_C12_ReservedInfo: an initial byte of ANY major type whose additional information is 28..31 (reserved /
+// indefinite length; symbolic) followed by 0, 1, 2, 4, 8, 15, 16, 17, 24, 32 or 33 SYMBOLIC bytes - i.e. also with
+// enough input behind it for a decoder that would read a 16- or 32-byte "argument" - through every Decode* entry
+// point on the three reader kinds: always an error, never a value, and no panic.  Seed C12-4 (ai 28 taken as a
+// 16-byte argument: rejected only because short inputs hit EOF) was missed with inputs of at most 9..11 bytes.
+func VH_C10_C12_ReservedInfo() {
+	vh.AllocCap(4096)
+	tails := []int{0, 1, 2, 4, 8, 15, 16, 17, 24, 32, 33}
+	tail := tails[vh.Choose(len(tails))]
+	in := vh.Bytes("in", 1+tail)
+	vh.Assume(in[0]&31 >= 28)
+	r, _ := c12Source(in)
+	d := NewDecoder(r)
+	var err error
+	panicked := vh.Try(func() {
+		switch vh.Choose(5) {
+		case 0:
+			_, err = d.DecodeUint()
+		case 1:
+			_, err = d.DecodeArrayHeader()
+		case 2:
+			_, err = d.DecodeMapHeader()
+		case 3:
+			_, err = d.DecodeByteString()
+		case 4:
+			_, err = d.DecodeTextString()
+		}
+	})
+	vh.Assert(!panicked, "no panic on a reserved initial byte")
+	vh.Assert(err != nil, "additional information 28..31 is refused however much input follows")
+}
